@@ -3,7 +3,7 @@
 
 use super::broker::rand_bytes;
 use super::util::{PubLine, filter_text};
-use super::{CfgSpec, ConnSpec, Drv, Out};
+use super::{CfgSpec, ConnSpec, Drv, Out, Sp};
 
 const TX: [usize; 20] = [
     64, 1152, 64, 5, 64, 1152, 64, 6, 64, 1152, 64, 7, 64, 1152, 64, 16, 64, 1152, 64, 24,
@@ -134,8 +134,28 @@ fn history(d: &mut Drv, tx: usize, steps: usize, idx: u64) {
                 // could never be reconnected).
                 let held: usize = d.interp().verif_state().retained.iter().map(|r| r.2).sum();
                 if held + 40 <= tx {
-                    d.x("drop");
-                    d.connect(&ConnSpec::plain());
+                    if d.rng.pct(50) {
+                        // A FRESH session while publishes are in flight: QoS 1 unacked, QoS 2
+                        // before its PUBREC, QoS 2 awaiting PUBCOMP.
+                        d.x(&PubLine::simple(2, "f", b"c").text());
+                        d.go();
+                        if let Some(i) = d.broker.owed().iter().rposition(|o| o.kind == "pubrec") {
+                            d.deliver(i);
+                            if !d.suspended() {
+                                d.x("poll");
+                            }
+                            d.go();
+                        }
+                        d.x(&PubLine::simple(1, "f", b"a").text());
+                        d.go();
+                        d.x(&PubLine::simple(2, "f", b"b").text());
+                        d.go();
+                        d.x("drop");
+                        d.connect(&ConnSpec { sp: Sp::Fixed(false), rc: 0, props: vec![] });
+                    } else {
+                        d.x("drop");
+                        d.connect(&ConnSpec::plain());
+                    }
                 }
             }
         }
